@@ -21,11 +21,11 @@ Open Scope Z_scope.
     Model of the code under test: [repaired]. *)
 Theorem C08_anim_lossless_roundtrip :
   forall (rt_ll rt_ly : img -> img) (W H : Z) (opts : eopts) (frames : list (img * Z))
-         (oracle : nat -> orc) (simple : bool) (st0 : est) (out : output),
+         (oracle : nat -> orc) (has_meta simple : bool) (st0 : est) (out : output),
     codec_lossless rt_ll ->
     wf_canvas_dims W H -> lossless_opts opts -> frames <> [] -> Forall wf_input frames ->
     new_encoder W H opts = Some st0 ->
-    close simple (run_frames repaired oracle st0 frames) = Some out ->
+    close has_meta simple (run_frames repaired oracle st0 frames) = Some out ->
     same_show W H (eo_loop opts) out (playback rt_ll rt_ly repaired out) (inputs_of W H frames).
 Proof. exact anim_lossless_roundtrip. Qed.
 Print Assumptions C08_anim_lossless_roundtrip.
